@@ -939,6 +939,52 @@ def generate(rng, tier):
         for ops, raws, l in L:
             st = [untemper(w) for w in raws]
             cs.append(Case(f"lawh {hrng.randrange(2 ** 32)} {len(st)} {' '.join(str(w) for w in st)} {len(ops)} {' '.join(ops)} {l}".replace("  ", " "), ("law", l.split()[1], "after-history")))
+    # W. (seventh pass) the acceptance statistic of Sample_Metropolis(_2D): average acceptance probability and the efficiency warning
+    #    (< 1e-3 || > 1.0 - 1e-2) -- proposal widths from "every candidate leaves the domain" to "every candidate is taken", constant densities
+    #    whose average sits on the 0.99 threshold (one candidate in a hundred outside), i_max = 0 (0.0/0: no warning)
+    def as_w(c, tags): return Case("seqw" + c.line[3:], tags)
+    for _ in range(R(150, 1500)):
+        kind = rng.choice(["wide", "narrow", "mid", "thr99", "thr99", "empty", "any", "any2"])
+        if kind == "empty":
+            o = rng.choice([f"metro {hx(1.0)} 0 {rng.randint(1, 5)} 0 {flist(rng.choice([[], [-1.0, 2.0]]))} {T1['gauss'][0]}",
+                            f"metro2 {hx(1.0)} {hx(0.5)} 0 {rng.randint(1, 5)} 0 {flist(rng.choice([[], [-1.0, 2.0, -1.0, 2.0]]))} {T2['g2'][0]}"]); n = 3
+        elif kind == "any": o, n = op_metro()
+        elif kind == "any2": o, n = op_metro2()
+        else:
+            d2 = rng.random() < 0.35
+            if kind == "thr99":
+                im = rng.choice([100, 100, 200, 300]); th = rng.choice([1, 2, 5, 10]); s_ = im // th; b_ = im - th * s_
+                sg = 10 ** rng.uniform(-2.6, -1.9); fx = C(rng.choice([1.0, 0.25, 3.0])); dm = [0.0, 1.0, 0.0, 1.0] if d2 else [0.0, 1.0]
+                if d2: sg *= 0.6
+            else:
+                s_, th, b_ = triple(40); im = imax32(s_, th, b_)
+                sg = {"wide": 10 ** rng.uniform(1.5, 4), "narrow": 10 ** rng.uniform(-6, -3), "mid": 10 ** rng.uniform(-1, 0.5)}[kind]
+                if d2: nm = rng.choice(["g2box", "xpy"]); fx = T2[nm][0]; dm = list(T2[nm][3]) if T2[nm][3] else [-1.0, 2.0, -1.0, 2.0]
+                else: nm = rng.choice(["tgauss", "tri", "sin", "gauss"]); fx = T1[nm][0]; dm = list(T1[nm][2]) if T1[nm][2] else rng.choice([[], [-1.0, 2.0]])
+            if d2: o = f"metro2 {hx(sg)} {hx(sg * rng.choice([1.0, 0.5]))} {s_} {th} {b_} {flist(dm)} {fx}"; n = 2 + 3 * im
+            else: o = f"metro {hx(sg)} {s_} {th} {b_} {flist(dm)} {fx}"; n = 1 + 2 * im
+        cs.append(as_w(seq_case(seed(), [o], n + 1, ()), ("seqw", kind, o.split()[0])))
+    for _ in range(R(20, 200)):
+        a, n1 = op_metro(); b, n2 = op_metro2(); ops = [a, b] if rng.random() < 0.5 else [b, a]
+        cs.append(as_w(seq_case(seed(), ops, n1 + n2 + 1, ()), ("seqw", "two-calls")))
+    # G. (seventh pass) the generator inside the model: std::mt19937 (seeding, twist, tempering) and std::generate_canonical as Gallina functions;
+    #    the case carries NO uniforms, the model runs the history from the seed (or from prescribed state words) and also reports the next raw output
+    def as_g(c, n, tags):
+        t = c.line.split(); ns = int(t[2]); k = 3 + ns; nu = int(t[k])
+        return Case(" ".join(["seqg", str(n)] + t[1:k] + ["0"] + t[k + 1 + nu:]), tags)
+    for _ in range(R(150, 1200)):
+        K = rng.choice([1, 1, 2, 3, 5]); ops = []; n = 0
+        for _k in range(K):
+            name, f = rng.choice(singles)
+            o, m = f(60.0) if name == "poisson" else (f(kind=rng.choice(["tight", "loose"])) if name in ("rej", "rej2") else f())
+            ops.append(o); n += m
+        if n > 400: continue
+        raws = [rng.choice([0, 1, M, rng.randrange(2 ** 32)]) for _ in range(rng.choice([2, 4, 6]))] if rng.random() < 0.15 else None
+        cs.append(as_g(seq_case(seed(), ops, 0, (), state_raws=raws), n + rng.choice([0, 1, 5]), ("seqg", "history" if K > 1 else ops[0].split()[0]) + (("prescribed-state",) if raws else ())))
+    for sd in [0, 1, 5489, 2 ** 32 - 1, 2 ** 31, 19650218, rng.randrange(2 ** 32)]:
+        # more than 312 canonical draws: the state is regenerated (_M_gen_rand) inside the case
+        cs.append(as_g(seq_case(sd, [f"poissonv 40 " + " ".join([hx(7.5)] * 40)], 0, ()), 700, ("seqg", "twist")))
+        cs.append(as_g(seq_case(sd, [f"uniform {hx(0.0)} {hx(1.0)}"] * 3, 0, ()), 3, ("seqg", "first-draws")))
     return cs
 
 
@@ -947,8 +993,9 @@ def compare(c, io, mo, tol):
     op = c.line.split(None, 1)[0]
     if op in ("law", "lawh"): return (mo == "NOMODEL"), False, ("" if mo == "NOMODEL" else "model driver: " + mo[:60])
     if op == "seqh" and io: io = io.split(" FRESH ")[0]      # the answers of the pristine processes are judged in predicates()
-    if op in ("seq", "seqn", "seqh") and io and not io.startswith(("EXIT", "CRASH", "SANITIZER", "TIMEOUT", "HARNESSERR")):
-        io = io.rsplit(None, 1 if op == "seq" else 2)[0]          # the next raw output(s) are checked against the Python MT19937 in predicates()
+    if op == "seqw" and io: io = io.split(" A ")[0]          # the averages printed by the library are judged in predicates()
+    if op in ("seq", "seqw", "seqn", "seqh") and io and not io.startswith(("EXIT", "CRASH", "SANITIZER", "TIMEOUT", "HARNESSERR")):
+        io = io.rsplit(None, 1 if op in ("seq", "seqw") else 2)[0]          # the next raw output(s) are checked against the Python MT19937 in predicates()
     return compare_lines(io, mo, tol)
 
 
@@ -958,6 +1005,10 @@ def nontrivial(c, io):
     if t == "mgrid":
         p = c.line.split(); return int(p[3]) >= 2 and int(p[4]) % int(p[3]) != 0
     if t == "seqh": return len(parse_seq(c.line)[3]) >= 2 and " FRESH " in io
+    if t == "seqw": return not io.startswith("EXIT") and " A " in io
+    if t == "seqg":
+        if io.startswith("EXIT"): return False
+        v = parse_vals(io); return len(v) >= 3 and v[-3] >= 1          # at least one canonical draw made through the modelled generator
     if t == "seqn":
         def names(o): return names(o[1]) if o[0] == "onaux" else ({"nest"} | names(o[3]) | names(o[4]) if o[0] == "nest" else {o[0]})
         ops = parse_seq(c.line)[3]; ns = set()
@@ -1513,10 +1564,93 @@ def seqh_predicates(c, io):
     return out
 
 
+# ------------------------------------------------------------------ seventh pass: acceptance statistic (seqw), generator in the model (seqg)
+class _Line:
+    def __init__(s, line, tags): s.line = line; s.tags = tags
+
+
+def seqg_as_seq(c):
+    """the seq case with the same generator state and calls, the uniforms computed by the Python MT19937 (for the S4 predicates only)"""
+    t = c.line.split(); n = int(t[1]); seed = int(t[2]); ns = int(t[3]); state = [int(x) for x in t[4:4 + ns]]
+    g = MT(seed, state or None); us = [g.canon() for _ in range(n + 2)]
+    return _Line(" ".join(["seq"] + t[2:4 + ns] + [flist(us)] + t[5 + ns:]), getattr(c, "tags", ()))
+
+
+def avg_accept(dim, us, k0, sigmas, im, dom, e):
+    """sum of the acceptance probabilities of the im iterations (in the library's order of operations), None if the chain cannot be followed"""
+    def pdf(p): return feval(e, p[0], p[1]) if dim == 2 else feval(e, p[0])
+    def ratio(a, b):
+        if b == 0.0: return math.nan if (a == 0.0 or a != a) else math.copysign(math.inf, a) * math.copysign(1.0, b)
+        return a / b
+    k = k0
+    if k + dim + (dim + 1) * im > len(us): return None
+    if dom: x = tuple(us[k + c] * (dom[2 * c + 1] - dom[2 * c]) + dom[2 * c] for c in range(dim))
+    else:
+        x = []
+        for c in range(dim):
+            z = lib_inv_erf(2.0 * us[k + c] - 1.0)
+            if z is None: return None
+            x.append(0.0 + SQ2 * sigmas[c] * z)
+        x = tuple(x)
+    k += dim; tot = 0.0
+    for _i in range(im):
+        cand = []
+        for c in range(dim):
+            z = lib_inv_erf(2.0 * us[k + c] - 1.0)
+            if z is None: return None
+            cand.append(x[c] + SQ2 * sigmas[c] * z)
+        cand = tuple(cand); u = us[k + dim]; k += dim + 1
+        if dom and any(cand[c] < dom[2 * c] or cand[c] > dom[2 * c + 1] for c in range(dim)): a = 0.0
+        else:
+            r = ratio(pdf(cand), pdf(x)); a = r if r < 1.0 else 1.0
+        tot += a
+        if u < a: x = cand
+    return tot
+
+
+def seqw_predicates(c, io):
+    out = []
+    seed, state, us, ops = parse_seq(c.line)
+    if io.startswith("EXIT"): return [("metro:exit", "Sample_Metropolis terminated the process on a well-formed request")]
+    head, _, tail = io.partition(" A ")
+    v = parse_vals(head); printed = tail.split()
+    # the values without the warning flags are a seq output: all predicates of the plain samplers apply
+    plain = []; flags = []; q = 0
+    for o in ops:
+        cnt = v[q]; w = 1 + cnt * (2 if o[0] == "metro2" else 1)
+        plain += v[q:q + w]; flags.append(v[q + w]); q += w + 1
+    plain += v[q:]
+    def tok(x): return hx(x) if isinstance(x, float) else str(x)
+    out += predicates(_Line("seq" + c.line[4:], getattr(c, "tags", ())), " ".join(tok(x) for x in plain))
+    k0 = 0
+    for j, o in enumerate(ops):
+        d2 = o[0] == "metro2"; dim = 2 if d2 else 1
+        sig = (o[1], o[2]) if d2 else (o[1],); s_, th, b_ = o[dim + 1:dim + 4]; dom = o[dim + 4]; e = o[dim + 5]
+        im = imax32(s_, th, b_)
+        tot = avg_accept(dim, us, k0, sig, im, dom, e); k0 += dim + (dim + 1) * im
+        if tot is None: continue
+        if im == 0:
+            if flags[j]: out.append((o[0] + ":warning", "efficiency warning printed for a chain without iterations (average 0/0)"))
+            continue
+        av = tot / im; lo, hi = 1e-3, 1.0 - 1e-2
+        slack = 4.0 * im * 2.0 ** -53 + 1e-13        # a priori: im additions and one ulp per acceptance probability, relative to an average <= 1
+        expect = av < lo or av > hi
+        if min(abs(av - lo), abs(av - hi)) > slack and bool(flags[j]) != expect:
+            out.append((o[0] + ":warning", f"average acceptance probability {av!r} over {im} iterations: the efficiency warning (< 1e-3 or > 1 - 1e-2) was {'printed' if flags[j] else 'not printed'}"))
+        if flags[j] and j < len(printed) and printed[j].startswith("p"):
+            try: pv = float(printed[j][1:])
+            except ValueError: pv = None
+            if pv is None or abs(pv - av) > 1e-5 * abs(av) + 1e-300:          # operator<< prints 6 significant digits
+                out.append((o[0] + ":average", f"the warning reports the average acceptance probability {printed[j][1:]}, the chain's is {av!r}"))
+    return out
+
+
 def predicates(c, io):
     out = []
     if io.startswith(("CRASH", "SANITIZER", "TIMEOUT", "HARNESSERR")): return out        # reported generically
     kind = c.line.split(None, 1)[0]
+    if kind == "seqw": return seqw_predicates(c, io)
+    if kind == "seqg": return predicates(seqg_as_seq(c), io)
     if kind in ("law", "lawh"): return law_predicates(c, io)
     if kind == "seqn": return seqn_predicates(c, io)
     if kind == "seqh": return seqh_predicates(c, io)
